@@ -46,6 +46,11 @@ func c05alphabet(th bool, role string) [][]byte {
 	for i := 0; i < ns; i++ {
 		out = append(out, vx.Fill(fmt.Sprintf("c05%s%d", role, i), 16))
 	}
+	if role == "key" {
+		// keys solved so that single round keys (and windows of them) are all-zero / all-one words
+		sk, _ := sm4ref.SpecialScheduleKeys(th)
+		out = append(out, sk...)
+	}
 	return out
 }
 
@@ -85,7 +90,7 @@ func c05call(path string, enc, dec *[32]uint32, useDec, alias bool, in []byte) [
 }
 
 func TestVX_C05_Paths(t *testing.T) {
-	r := vx.Begin("C05", "block-paths", "keys K x blocks B (0^128, 1^128, standard sample, 128 one-hot, [thorough: 16x255 single-byte sweeps], seeded) through every implementation path: portable cryptoBlock / cryptoBlockX2, vector kernels of width 1,2,4,8,16 with the block list rotated so that every block visits every lane next to distinct neighbours, encrypt and decrypt key order, dst==src aliasing; both key schedules (expandKey, expandKeyAsm) compared word for word with sm4ref. Oracle sm4ref (algebraic S-box; validated on the GB/T 32907 vectors incl. the 10^6-fold iteration). Shape=(key index, path, direction, alias)")
+	r := vx.Begin("C05", "block-paths", "keys K x blocks B (0^128, 1^128, standard sample, 128 one-hot, keys solved for rk[i]=0 (every i), rk[i]=0xffffffff and all-zero/all-one windows rk[0..3], rk[28..31], rk[1..2], rk[14..17], [thorough: 16x255 single-byte sweeps], seeded) through every implementation path: portable cryptoBlock / cryptoBlockX2, vector kernels of width 1,2,4,8,16 with the block list rotated so that every block visits every lane next to distinct neighbours, encrypt and decrypt key order, dst==src aliasing; both key schedules (expandKey, expandKeyAsm) compared word for word with sm4ref. Oracle sm4ref (algebraic S-box; validated on the GB/T 32907 vectors incl. the 10^6-fold iteration). Shape=(key index, path, direction, alias)")
 	defer r.End()
 	i0, _ := vx.Shard()
 	if err := refs.SelfCheck(i0 == 0 && !vx.Replaying()); err != nil {
